@@ -1,0 +1,194 @@
+//! Verification hooks. Only compiled with `--cfg deltio_verif`.
+//!
+//! With no hooks installed every entry point is a no-op, and with the cfg
+//! off none of this exists. The hooks let a deterministic simulator
+//!
+//! * decide, at named *schedule points*, whether the current task keeps running
+//!   or lets other runnable tasks go first ([`point`]),
+//! * do the same for plain threads in non-async code ([`sync_point`]),
+//! * count how often rare branches are reached ([`probe`]),
+//! * answer the HTTP POST of the push loop without real sockets ([`PushClient`]).
+use std::future::Future;
+use std::pin::Pin;
+use std::sync::atomic::{AtomicBool, Ordering};
+use std::sync::OnceLock;
+use std::task::{Context, Poll};
+use std::time::Duration;
+
+/// What a schedule point should do.
+#[derive(Debug, Clone, Copy, Default)]
+pub struct PointDecision {
+    /// How many times to yield to the other runnable tasks.
+    pub yields: u32,
+    /// Optionally sleep (virtual time) at the point: a descheduled thread.
+    pub stall: Option<Duration>,
+}
+
+/// A push request as seen by the simulated endpoint.
+#[derive(Debug, Clone)]
+pub struct PushRequest {
+    pub url: String,
+    pub headers: Vec<(String, String)>,
+    pub body: String,
+}
+
+/// The future answering a push request: a status code, or a transport error.
+pub type PushFuture = Pin<Box<dyn Future<Output = Result<u16, String>> + Send>>;
+
+/// Implemented by the simulator.
+pub trait SimHooks: Sync + Send {
+    /// Called at an async schedule point.
+    fn point(&self, site: &'static str) -> PointDecision;
+    /// Called at a schedule point in synchronous (thread) code.
+    fn sync_point(&self, site: &'static str);
+    /// Called when a branch of interest is reached.
+    fn probe(&self, name: &'static str);
+    /// Called instead of sending a real HTTP request.
+    fn push_send(&self, request: PushRequest) -> PushFuture;
+}
+
+static HOOKS: OnceLock<Box<dyn SimHooks>> = OnceLock::new();
+
+/// Set while a poll returned `Pending` because of a schedule point (and not
+/// because of a suspension the real code has). Cleared by the simulator.
+static POINT_PENDING: AtomicBool = AtomicBool::new(false);
+
+/// Installs the hooks. Can be done once per process.
+pub fn install(hooks: Box<dyn SimHooks>) -> bool {
+    HOOKS.set(hooks).is_ok()
+}
+
+/// Returns and clears the "a schedule point suspended this poll" flag.
+pub fn take_point_pending() -> bool {
+    POINT_PENDING.swap(false, Ordering::Relaxed)
+}
+
+/// A schedule point in async code.
+pub async fn point(site: &'static str) {
+    let decision = match HOOKS.get() {
+        Some(hooks) => hooks.point(site),
+        None => return,
+    };
+    if let Some(stall) = decision.stall {
+        Stall(Box::pin(tokio::time::sleep(stall))).await;
+    }
+    for _ in 0..decision.yields {
+        YieldOnce(false).await;
+    }
+}
+
+/// A schedule point in synchronous code.
+#[inline]
+pub fn sync_point(site: &'static str) {
+    if let Some(hooks) = HOOKS.get() {
+        hooks.sync_point(site);
+    }
+}
+
+/// A reach counter.
+#[inline]
+pub fn probe(name: &'static str) {
+    if let Some(hooks) = HOOKS.get() {
+        hooks.probe(name);
+    }
+}
+
+struct YieldOnce(bool);
+
+impl Future for YieldOnce {
+    type Output = ();
+
+    fn poll(mut self: Pin<&mut Self>, cx: &mut Context<'_>) -> Poll<()> {
+        if self.0 {
+            return Poll::Ready(());
+        }
+        self.0 = true;
+        POINT_PENDING.store(true, Ordering::Relaxed);
+        cx.waker().wake_by_ref();
+        Poll::Pending
+    }
+}
+
+struct Stall(Pin<Box<tokio::time::Sleep>>);
+
+impl Future for Stall {
+    type Output = ();
+
+    fn poll(mut self: Pin<&mut Self>, cx: &mut Context<'_>) -> Poll<()> {
+        let result = self.0.as_mut().poll(cx);
+        if result.is_pending() {
+            POINT_PENDING.store(true, Ordering::Relaxed);
+        }
+        result
+    }
+}
+
+/// Stand-in for the small part of `reqwest::Client` that the push loop uses.
+#[derive(Clone, Default)]
+pub struct PushClient;
+
+/// Stand-in for `reqwest::RequestBuilder`.
+pub struct PushRequestBuilder {
+    request: PushRequest,
+}
+
+/// Stand-in for `reqwest::Response`.
+pub struct PushResponse {
+    status: u16,
+}
+
+/// Stand-in for `reqwest::StatusCode`.
+pub struct PushStatus(u16);
+
+impl PushClient {
+    /// Shadows a real client.
+    pub fn shadow<T>(_real: &T) -> Self {
+        Self
+    }
+
+    pub fn request<M, U: AsRef<str>>(&self, _method: M, url: U) -> PushRequestBuilder {
+        PushRequestBuilder {
+            request: PushRequest {
+                url: url.as_ref().to_string(),
+                headers: Vec::new(),
+                body: String::new(),
+            },
+        }
+    }
+}
+
+impl PushRequestBuilder {
+    pub fn header(mut self, key: &str, value: &str) -> Self {
+        self.request
+            .headers
+            .push((key.to_string(), value.to_string()));
+        self
+    }
+
+    pub fn body(mut self, body: String) -> Self {
+        self.request.body = body;
+        self
+    }
+
+    pub async fn send(self) -> Result<PushResponse, String> {
+        match HOOKS.get() {
+            Some(hooks) => hooks
+                .push_send(self.request)
+                .await
+                .map(|status| PushResponse { status }),
+            None => Err("no simulated push endpoint installed".to_string()),
+        }
+    }
+}
+
+impl PushResponse {
+    pub fn status(&self) -> PushStatus {
+        PushStatus(self.status)
+    }
+}
+
+impl From<PushStatus> for u16 {
+    fn from(value: PushStatus) -> Self {
+        value.0
+    }
+}
